@@ -1,14 +1,58 @@
-//! prototype
+//! Driver for the end-to-end composition X01 (spec/service/*.tla): a service-shaped program.
+//!
+//! Request handlers (OS threads or tokio tasks) create `#[metrics]` unit-of-work entries (a timer on
+//! a manually advanced time source, counter fields, string fields, a timestamp, optionally a slot or
+//! a flush guard handed to a sub-task), mutate them and drop them; the entries go through the global
+//! `ServiceMetrics` to a real `BackgroundQueue` whose stream is the real `Emf` formatter (all
+//! validations) over a recording `io::Write`.  The operator attaches, requests flushes and drops the
+//! attach handle while requests are still arriving.
+//!
+//!   svc run --scenarios s.ndjson --out trace.ndjson --meta meta.ndjson
+//!       T direction: free-running seeded scenarios under `sched` perturbation; the trace is validated
+//!       by TLC against ServiceTrace.tla
+//!   svc seq --behaviours b.ndjson --out trace.ndjson --meta meta.ndjson --results r.ndjson
+//!       R direction: TLC behaviours of ServiceReplay.tla (sequences of request operations, flushes,
+//!       attach / handle drop) executed one operation after the other; the results of the calls and
+//!       the output after every completed flush / handle drop are compared with what TLC computed,
+//!       and the recorded trace is validated as well
+//!
+//! Events (one ndjson line each, totally ordered by the trace module):
+//!   Reset{cap}  AttachStart AttachEnd{ok}  DetachStart DetachEnd  FlushReq{f} FlushDone{f}
+//!   ReqStart{p,e,mode,op,ts}  SinkStart{e,h} SinkEnd{e,ok}  Work{e,by,d}  SubWork{e,by,d}
+//!   DropStart{e,k,r} DropEnd{e,k}  TryStart{e,h,r} TryEnd{e,ok}
+//!   Line{e,op,ts,c,h,t,sub}  WFlush  WClose   (from inside the recording writer = the writer thread)
+//!   Quiesce
+//!   BadLine{why,..} Panic{..} DetachTimeout FlushTimeout{f} Altered{e}   (consumed by no action)
+
 use metrique::timers::{Timer, Timestamp};
 use metrique::unit::Count;
 use metrique::unit_of_work::metrics;
-use metrique::writer::{AttachGlobalEntrySink, FormatExt, GlobalEntrySink};
-use metrique::{CloseValue, Counter, OnParentDrop, RootEntry, ServiceMetrics, Slot};
+use metrique::writer::{AnyEntrySink, AttachGlobalEntrySink, BoxEntrySink, FormatExt};
+use metrique::{CloseValue, Counter, FlushGuard, OnParentDrop, RootEntry, ServiceMetrics, Slot, SlotGuard};
 use metrique_timesource::{TimeSource, fakes::ManuallyAdvancedTimeSource};
-use metrique_writer::sink::BackgroundQueueBuilder;
+use metrique_writer::sink::{AttachHandle, BackgroundQueueBuilder};
 use metrique_writer_format_emf::Emf;
-use std::sync::{Arc, Mutex};
-use std::time::{Duration, UNIX_EPOCH};
+use rand::Rng;
+use serde::Deserialize;
+use serde_json::{Value, json};
+use std::collections::HashMap;
+use std::future::Future;
+use std::io::Write;
+use std::pin::Pin;
+use std::sync::atomic::{AtomicBool, Ordering};
+use std::sync::{Arc, Barrier, Condvar, Mutex, mpsc};
+use std::task::{Context, Poll, Wake, Waker};
+use std::time::{Duration, Instant, UNIX_EPOCH};
+use vharness::{emf, sched, trace, util};
+
+const BUDGET: Duration = Duration::from_secs(10);
+/// wall-clock origin of the requests' manual clocks: request e starts at BASE_MS + e
+const BASE_MS: u64 = 1_700_000_000_000;
+const OPS: [&str; 4] = ["GetItem", "PutItem", "Query", "Scan\u{e9}\"\\"];
+
+// ------------------------------------------------------------------------------------------
+// the unit-of-work entry
+// ------------------------------------------------------------------------------------------
 
 #[metrics(rename_all = "PascalCase")]
 struct RequestMetrics {
@@ -30,75 +74,912 @@ struct SubMetrics {
     sub_items: usize,
 }
 
-struct W(Arc<Mutex<Vec<u8>>>);
-impl std::io::Write for W {
-    fn write(&mut self, b: &[u8]) -> std::io::Result<usize> {
-        eprintln!("write {}", b.len());
-        self.0.lock().unwrap().extend_from_slice(b);
-        Ok(b.len())
+struct Clock(ManuallyAdvancedTimeSource);
+impl Clock {
+    fn new(e: u64) -> Clock {
+        Clock(ManuallyAdvancedTimeSource::at_time(UNIX_EPOCH + Duration::from_millis(BASE_MS + e)))
     }
-    fn flush(&mut self) -> std::io::Result<()> {
-        eprintln!("flush");
-        Ok(())
+    fn source(&self) -> TimeSource {
+        TimeSource::custom(self.0.clone())
     }
-}
-impl Drop for W {
-    fn drop(&mut self) {
-        eprintln!("close");
+    fn advance_us(&self, d: u64) {
+        if d > 0 {
+            self.0.update_instant(Duration::from_micros(d));
+        }
     }
 }
 
-fn main() {
-    let buf = Arc::new(Mutex::new(Vec::new()));
-    let stream = Emf::all_validations("Svc".into(), vec![vec!["Operation".into()]]).output_to(W(buf.clone()));
-    let (q, h) = BackgroundQueueBuilder::new().build_boxed(stream);
-    let handle = ServiceMetrics::attach((q, h));
-    let ts = ManuallyAdvancedTimeSource::at_time(UNIX_EPOCH + Duration::from_millis(1_700_000_000_123));
-    let src = TimeSource::custom(ts.clone());
-    {
-        let mut m = RequestMetrics {
-            request_id: "r1".into(),
-            operation: "GetItem",
-            started: Timestamp::new_from_time_source(src.clone()),
-            items: 0,
-            hits: Counter::default(),
-            latency: Timer::start_now_with_timesource(src.clone()),
-            sub: Default::default(),
-        }
-        .append_on_drop(ServiceMetrics::sink());
-        m.items += 3;
-        m.hits.increment();
-        let fg = m.flush_guard();
-        let mut sg = m.sub.open(OnParentDrop::Wait(fg)).unwrap();
-        ts.update_time(UNIX_EPOCH + Duration::from_millis(1_700_000_000_123) + Duration::from_micros(1500));
-        drop(m);
-        sg.sub_items += 7;
-        drop(sg);
-    }
-    {
-        let m = RequestMetrics {
-            request_id: "r2".into(),
-            operation: "PutItem",
-            started: Timestamp::new_from_time_source(src.clone()),
-            items: 1,
-            hits: Counter::default(),
-            latency: Timer::start_now_with_timesource(src.clone()),
-            sub: Default::default(),
-        };
-        let r = ServiceMetrics::try_append(RootEntry::new(m.close()));
-        eprintln!("try ok={}", r.is_ok());
-    }
-    drop(handle);
-    let m = RequestMetrics {
-        request_id: "r3".into(),
-        operation: "PutItem",
-        started: Timestamp::new_from_time_source(src.clone()),
-        items: 1,
+fn new_metrics(e: u64, op: &'static str, clock: &Clock) -> RequestMetrics {
+    RequestMetrics {
+        request_id: format!("r{e}"),
+        operation: op,
+        started: Timestamp::new_from_time_source(clock.source()),
+        items: 0,
         hits: Counter::default(),
-        latency: Timer::start_now_with_timesource(src.clone()),
+        latency: Timer::start_now_with_timesource(clock.source()),
         sub: Default::default(),
+    }
+}
+
+fn mutate(m: &mut RequestMetrics, by: u64) {
+    for _ in 0..by {
+        m.items += 1;
+    }
+    m.hits.add(by);
+}
+
+/// what the sub-task holds
+enum SubGuard {
+    Flush(#[allow(dead_code)] FlushGuard),
+    Slot(SlotGuard<SubMetrics>),
+}
+
+// ------------------------------------------------------------------------------------------
+// the recording writer behind the Emf formatter
+// ------------------------------------------------------------------------------------------
+
+#[derive(Clone, Default)]
+struct OutLog(Arc<Mutex<Vec<Value>>>);
+
+struct RecWriter {
+    buf: Vec<u8>,
+    epoch: u64,
+    /// accept at most this many bytes per `write` call (0 = everything)
+    short: usize,
+    calls: u64,
+    lines: OutLog,
+}
+
+impl RecWriter {
+    fn live(&self) -> bool {
+        self.epoch == trace::epoch()
+    }
+}
+
+fn int_member(v: &Value) -> Option<i64> {
+    let t = v["n"].as_str()?;
+    let f: f64 = t.parse().ok()?;
+    if f.fract() != 0.0 || f.abs() > 1e9 { None } else { Some(f as i64) }
+}
+
+/// Strict judgement of one output line (json.rs + the EMF projection of emf.rs); Ok = the Line event
+fn judge_line(line: &[u8]) -> Result<Value, String> {
+    let mut with_nl = line.to_vec();
+    with_nl.push(b'\n');
+    let p = emf::project(&with_nl);
+    if !p["framing"].is_null() {
+        return Err(format!("framing: {}", p["framing"]));
+    }
+    let ls = p["lines"].as_array().unwrap();
+    if ls.len() != 1 {
+        return Err("not exactly one line".into());
+    }
+    let l = &ls[0];
+    if let Some(e) = l.get("json_err") {
+        return Err(format!("invalid JSON: {e} at {}", l["pos"]));
+    }
+    if !l["skeleton_err"].is_null() {
+        return Err(format!("EMF skeleton: {}", l["skeleton_err"]));
+    }
+    if l["dups"].as_array().is_some_and(|d| !d.is_empty()) {
+        return Err(format!("duplicate members {}", l["dups"]));
+    }
+    let dirs = l["aws"]["directives"].as_array().unwrap();
+    if dirs.len() != 1 || dirs[0]["ns"] != "Svc" || dirs[0]["dims"] != json!([["Operation"]]) {
+        return Err(format!("directives {}", l["aws"]["directives"]));
+    }
+    let mut units: HashMap<String, Value> = HashMap::new();
+    for m in dirs[0]["metrics"].as_array().unwrap() {
+        if units.insert(m["name"].as_str().unwrap().to_string(), m["unit"].clone()).is_some() {
+            return Err(format!("metric {} declared twice", m["name"]));
+        }
+    }
+    let mut nums: HashMap<String, &Value> = HashMap::new();
+    let mut strs: HashMap<String, String> = HashMap::new();
+    for m in l["members"].as_array().unwrap() {
+        let name = m["name"].as_str().unwrap().to_string();
+        if let Some(s) = m["v"]["s"].as_str() {
+            strs.insert(name, s.to_string());
+        } else if m["v"].get("n").is_some() {
+            nums.insert(name, &m["v"]);
+        } else {
+            return Err(format!("member {name} is neither a string nor a number: {}", m["v"]));
+        }
+    }
+    let mut declared: Vec<&String> = units.keys().collect();
+    let mut numeric: Vec<&String> = nums.keys().collect();
+    declared.sort();
+    numeric.sort();
+    if declared != numeric {
+        return Err(format!("declared metrics {declared:?} differ from numeric members {numeric:?}"));
+    }
+    let mut skeys: Vec<&String> = strs.keys().collect();
+    skeys.sort();
+    if skeys != ["Operation", "RequestId"] {
+        return Err(format!("string members {skeys:?} (expected Operation, RequestId)"));
+    }
+    for k in numeric.iter() {
+        if !["Items", "Hits", "Latency", "SubItems"].contains(&k.as_str()) {
+            return Err(format!("unexpected metric {k}"));
+        }
+    }
+    let e: i64 = strs["RequestId"].strip_prefix('r').and_then(|x| x.parse().ok()).ok_or("RequestId is not r<number>")?;
+    let c = nums.get("Items").and_then(|v| int_member(v)).ok_or("Items missing or not an integer")?;
+    if units["Items"] != "Count" {
+        return Err(format!("unit of Items is {}", units["Items"]));
+    }
+    let h = nums.get("Hits").and_then(|v| int_member(v)).ok_or("Hits missing or not an integer")?;
+    let sub = match nums.get("SubItems") {
+        None => -1,
+        Some(v) => int_member(v).ok_or("SubItems not an integer")?,
     };
-    let r = ServiceMetrics::try_append(RootEntry::new(m.close()));
-    eprintln!("try ok={} sink={}", r.is_ok(), ServiceMetrics::try_sink().is_some());
-    print!("{}", String::from_utf8_lossy(&buf.lock().unwrap()));
+    let lat: f64 = nums.get("Latency").and_then(|v| v["n"].as_str()).and_then(|t| t.parse().ok()).ok_or("Latency missing")?;
+    let factor = match units["Latency"].as_str() {
+        Some("Microseconds") => 1.0,
+        Some("Milliseconds") => 1e3,
+        Some("Seconds") => 1e6,
+        other => return Err(format!("unit of Latency is {other:?}")),
+    };
+    let us = lat * factor;
+    if (us - us.round()).abs() > 1e-6 || !(0.0..1e9).contains(&us) {
+        return Err(format!("Latency {lat} {} is not a whole number of microseconds", units["Latency"]));
+    }
+    let ts_abs: u64 = l["aws"]["ts"].as_str().and_then(|t| t.parse().ok()).ok_or("timestamp")?;
+    let ts = if ts_abs >= BASE_MS && ts_abs - BASE_MS < 1_000_000_000 { (ts_abs - BASE_MS) as i64 } else { -1 };
+    Ok(json!({"ev": "Line", "e": e, "op": strs["Operation"], "ts": ts, "c": c, "h": h, "t": us.round() as i64, "sub": sub}))
+}
+
+impl Write for RecWriter {
+    fn write(&mut self, b: &[u8]) -> std::io::Result<usize> {
+        self.calls += 1;
+        let n = if self.short > 0 && b.len() > 1 { 1 + (self.calls as usize * 7919) % self.short.min(b.len()) } else { b.len() };
+        self.buf.extend_from_slice(&b[..n]);
+        while let Some(pos) = self.buf.iter().position(|c| *c == b'\n') {
+            let line: Vec<u8> = self.buf.drain(..=pos).collect();
+            let ev = match judge_line(&line[..line.len() - 1]) {
+                Ok(ev) => ev,
+                Err(why) => json!({"ev": "BadLine", "why": why, "line": String::from_utf8_lossy(&line[..line.len().min(400)])}),
+            };
+            self.lines.0.lock().unwrap().push(ev.clone());
+            if self.live() {
+                trace::ev(ev);
+            }
+        }
+        Ok(n)
+    }
+    fn flush(&mut self) -> std::io::Result<()> {
+        if self.live() {
+            trace::ev_dedup(json!({"ev": "WFlush"}));
+        }
+        Ok(())
+    }
+}
+
+impl Drop for RecWriter {
+    fn drop(&mut self) {
+        if self.live() {
+            if !self.buf.is_empty() {
+                trace::ev(json!({"ev": "BadLine", "why": "unterminated output at close",
+                                 "line": String::from_utf8_lossy(&self.buf[..self.buf.len().min(400)])}));
+            }
+            trace::ev(json!({"ev": "WClose"}));
+        }
+    }
+}
+
+fn build_queue(cap: usize, flush_us: u64, short: usize, name: String, lines: OutLog) -> (BoxEntrySink, metrique_writer::sink::BackgroundQueueJoinHandle) {
+    let w = RecWriter { buf: Vec::new(), epoch: trace::epoch(), short, calls: 0, lines };
+    let stream = Emf::all_validations("Svc".into(), vec![vec!["Operation".into()]]).output_to(w);
+    BackgroundQueueBuilder::new()
+        .capacity(cap)
+        .flush_interval(Duration::from_micros(flush_us.max(1)))
+        .thread_name(name)
+        .build_boxed(stream)
+}
+
+// ------------------------------------------------------------------------------------------
+// operator: flush requests, attach-handle drop
+// ------------------------------------------------------------------------------------------
+
+struct FlushWaker {
+    f: i64,
+    logged: AtomicBool,
+    woke: Mutex<bool>,
+    cv: Condvar,
+}
+impl FlushWaker {
+    fn log_done(&self) {
+        if !self.logged.swap(true, Ordering::SeqCst) {
+            trace::evi("FlushDone", &[("f", self.f)]);
+        }
+    }
+}
+impl Wake for FlushWaker {
+    fn wake(self: Arc<Self>) {
+        // runs synchronously in the thread that completes the flush (the writer thread), so the
+        // event is exactly ordered against Line / WFlush / WClose
+        self.log_done();
+        *self.woke.lock().unwrap() = true;
+        self.cv.notify_all();
+    }
+}
+
+fn do_flush(q: &BoxEntrySink, f: i64) -> bool {
+    trace::evi("FlushReq", &[("f", f)]);
+    let mut fut = AnyEntrySink::flush_async(q);
+    let w = Arc::new(FlushWaker { f, logged: AtomicBool::new(false), woke: Mutex::new(false), cv: Condvar::new() });
+    let waker = Waker::from(w.clone());
+    let mut cx = Context::from_waker(&waker);
+    let deadline = Instant::now() + BUDGET;
+    loop {
+        if let Poll::Ready(()) = Pin::new(&mut fut).poll(&mut cx) {
+            w.log_done();
+            return true;
+        }
+        let g = w.woke.lock().unwrap();
+        let now = Instant::now();
+        if now >= deadline {
+            trace::evi("FlushTimeout", &[("f", f)]);
+            return false;
+        }
+        let (mut g, _) = w.cv.wait_timeout_while(g, deadline - now, |woke| !*woke).unwrap();
+        *g = false;
+    }
+}
+
+/// Drop the attach handle in a helper thread; false = it did not return within the budget
+fn watched_detach(handle: AttachHandle) -> bool {
+    trace::evi("DetachStart", &[]);
+    let (tx, rx) = mpsc::channel();
+    let t = std::thread::spawn(move || {
+        let r = util::catch(|| drop(handle));
+        let _ = tx.send(r.is_ok());
+    });
+    match rx.recv_timeout(BUDGET) {
+        Ok(true) => {
+            trace::evi("DetachEnd", &[]);
+            let _ = t.join();
+            true
+        }
+        Ok(false) => {
+            trace::ev(json!({"ev": "Panic", "what": "attach handle drop"}));
+            false
+        }
+        Err(_) => {
+            trace::evi("DetachTimeout", &[]);
+            false
+        }
+    }
+}
+
+// ------------------------------------------------------------------------------------------
+// one request
+// ------------------------------------------------------------------------------------------
+
+#[derive(Clone, Debug)]
+struct ReqPlan {
+    p: i64,
+    e: u64,
+    mode: &'static str,
+    op: &'static str,
+    by: u64,
+    d: u64,
+    sub_by: u64,
+    sub_d: u64,
+    /// the sub-task drops its guard after this long
+    sub_delay_us: u64,
+    /// the owner waits this long between handing the guard over and dropping the entry
+    owner_delay_us: u64,
+}
+
+struct SubJob {
+    e: u64,
+    guard: SubGuard,
+    clock: Clock,
+    by: u64,
+    d: u64,
+    delay_us: u64,
+}
+
+fn run_sub(job: SubJob) {
+    let e = job.e as i64;
+    if job.delay_us > 0 {
+        std::thread::sleep(Duration::from_micros(job.delay_us));
+    }
+    let mut guard = job.guard;
+    let r = util::catch(move || {
+        if job.by > 0 || job.d > 0 {
+            if let SubGuard::Slot(sg) = &mut guard {
+                for _ in 0..job.by {
+                    sg.sub_items += 1;
+                }
+            }
+            job.clock.advance_us(job.d);
+            trace::evi("SubWork", &[("e", e), ("by", job.by as i64), ("d", job.d as i64)]);
+        }
+        trace::ev(json!({"ev": "DropStart", "e": e, "k": "g"}));
+        drop(guard);
+        trace::ev(json!({"ev": "DropEnd", "e": e, "k": "g"}));
+    });
+    if let Err(m) = r {
+        trace::ev(json!({"ev": "Panic", "e": e, "what": m}));
+    }
+}
+
+/// An open unit of work of the guard modes (between `open_request` and `drop_owner`)
+struct OpenReq {
+    e: u64,
+    m: RequestMetricsGuard,
+}
+
+/// ReqStart, try_sink, entry creation, mutation; returns the entry (None = no sink) and the sub-task's job
+fn open_request(rp: &ReqPlan) -> (Option<OpenReq>, Option<SubJob>) {
+    let e = rp.e as i64;
+    trace::ev(json!({"ev": "ReqStart", "p": rp.p, "e": e, "mode": rp.mode, "op": rp.op, "ts": e}));
+    let clock = Clock::new(rp.e);
+    trace::evi("SinkStart", &[("e", e)]);
+    let sink = ServiceMetrics::try_sink();
+    trace::evi("SinkEnd", &[("e", e), ("ok", sink.is_some() as i64)]);
+    let Some(sink) = sink else { return (None, None) };
+    let mut m = new_metrics(rp.e, rp.op, &clock).append_on_drop(sink);
+    let guard = match rp.mode {
+        "fg" => Some(SubGuard::Flush(m.flush_guard())),
+        "wait" => {
+            let fg = m.flush_guard();
+            Some(SubGuard::Slot(m.sub.open(OnParentDrop::Wait(fg)).expect("fresh slot")))
+        }
+        "disc" => Some(SubGuard::Slot(m.sub.open(OnParentDrop::Discard).expect("fresh slot"))),
+        _ => None,
+    };
+    mutate(&mut m, rp.by);
+    clock.advance_us(rp.d);
+    trace::evi("Work", &[("e", e), ("by", rp.by as i64), ("d", rp.d as i64)]);
+    let job = guard.map(|g| SubJob { e: rp.e, guard: g, clock: Clock(clock.0.clone()), by: rp.sub_by, d: rp.sub_d, delay_us: rp.sub_delay_us });
+    (Some(OpenReq { e: rp.e, m }), job)
+}
+
+fn drop_owner(o: OpenReq) {
+    let e = o.e as i64;
+    trace::ev(json!({"ev": "DropStart", "e": e, "k": "o"}));
+    drop(o.m);
+    trace::ev(json!({"ev": "DropEnd", "e": e, "k": "o"}));
+}
+
+/// try mode: create, mutate, close, try_append
+fn try_request(rp: &ReqPlan) -> bool {
+    let e = rp.e as i64;
+    trace::ev(json!({"ev": "ReqStart", "p": rp.p, "e": e, "mode": "try", "op": rp.op, "ts": e}));
+    let clock = Clock::new(rp.e);
+    let mut m = new_metrics(rp.e, rp.op, &clock);
+    mutate(&mut m, rp.by);
+    clock.advance_us(rp.d);
+    trace::evi("Work", &[("e", e), ("by", rp.by as i64), ("d", rp.d as i64)]);
+    let closed = m.close();
+    trace::evi("TryStart", &[("e", e)]);
+    let r = ServiceMetrics::try_append(RootEntry::new(closed));
+    let ok = r.is_ok();
+    if let Err(back) = r {
+        // the entry handed back must be the entry given: format it and compare with the request
+        let mut bytes = Vec::new();
+        let mut f = Emf::all_validations("Svc".into(), vec![vec!["Operation".into()]]);
+        use metrique_writer::format::Format;
+        let same = f.format(&back, &mut bytes).is_ok()
+            && judge_line(bytes.strip_suffix(b"\n").unwrap_or(&bytes)).is_ok_and(|l| {
+                l["e"] == e && l["c"] == rp.by as i64 && l["h"] == rp.by as i64 && l["t"] == rp.d as i64 && l["op"] == rp.op && l["sub"] == -1
+            });
+        if !same {
+            trace::evi("Altered", &[("e", e)]);
+        }
+    }
+    trace::evi("TryEnd", &[("e", e), ("ok", ok as i64)]);
+    ok
+}
+
+/// A whole request as a handler executes it
+fn handle_request(rp: &ReqPlan, sub: &mut dyn FnMut(SubJob)) {
+    let r = util::catch(|| {
+        if rp.mode == "try" {
+            try_request(rp);
+            return;
+        }
+        let (open, job) = open_request(rp);
+        if let Some(j) = job {
+            sub(j);
+        }
+        if let Some(o) = open {
+            if rp.owner_delay_us > 0 {
+                std::thread::sleep(Duration::from_micros(rp.owner_delay_us));
+            }
+            drop_owner(o);
+        }
+    });
+    if let Err(m) = r {
+        trace::ev(json!({"ev": "Panic", "e": rp.e as i64, "what": m}));
+    }
+}
+
+// ------------------------------------------------------------------------------------------
+// search hints and scenario bookkeeping
+// ------------------------------------------------------------------------------------------
+
+/// h = result the call reports later; r = position of the request's line in the output (0 = never)
+fn annotate(evs: &mut [Value]) {
+    let mut res: HashMap<i64, i64> = HashMap::new();
+    let mut rank: HashMap<i64, i64> = HashMap::new();
+    let mut n = 0i64;
+    for e in evs.iter() {
+        match e["ev"].as_str().unwrap_or("") {
+            "SinkEnd" | "TryEnd" => {
+                res.insert(e["e"].as_i64().unwrap(), e["ok"].as_i64().unwrap());
+            }
+            "Line" => {
+                n += 1;
+                rank.entry(e["e"].as_i64().unwrap_or(-1)).or_insert(n);
+            }
+            "Reset" => {
+                n = 0;
+                rank.clear();
+            }
+            _ => {}
+        }
+    }
+    for e in evs.iter_mut() {
+        let name = e["ev"].as_str().unwrap_or("").to_string();
+        let id = e["e"].as_i64().unwrap_or(-1);
+        if name == "SinkStart" || name == "TryStart" {
+            e["h"] = json!(res.get(&id).copied().unwrap_or(0));
+        }
+        if name == "DropStart" || name == "TryStart" {
+            e["r"] = json!(rank.get(&id).copied().unwrap_or(0));
+        }
+    }
+}
+
+// ------------------------------------------------------------------------------------------
+// T: free-running scenarios
+// ------------------------------------------------------------------------------------------
+
+#[derive(Deserialize, Clone, Debug)]
+struct HandlerSpec {
+    n: u64,
+    #[serde(default)]
+    pace_us: u64,
+}
+
+#[derive(Deserialize, Clone, Debug)]
+struct FlusherSpec {
+    count: u64,
+    #[serde(default)]
+    delay_us: u64,
+    #[serde(default)]
+    gap_us: u64,
+}
+
+#[derive(Deserialize, Clone, Debug)]
+struct Scenario {
+    id: u64,
+    seed: u64,
+    handlers: Vec<HandlerSpec>,
+    /// weights of the modes try, guard, fg, wait, disc
+    modes: [u32; 5],
+    #[serde(default)]
+    flushers: Vec<FlusherSpec>,
+    flush_us: u64,
+    #[serde(default)]
+    short: usize,
+    /// the operator attaches this long after the handlers were released (requests before it find no sink)
+    #[serde(default)]
+    attach_delay_us: u64,
+    /// "graceful": the handle is dropped after every handler and sub-task has finished;
+    /// "race": it is dropped `hold_us` after the attach while requests are still arriving
+    end: String,
+    #[serde(default)]
+    hold_us: u64,
+    #[serde(default)]
+    sub_delay_us: u64,
+    #[serde(default)]
+    owner_delay_us: u64,
+    #[serde(default)]
+    permille: u32,
+    #[serde(default)]
+    max_us: u32,
+    /// handlers are tokio tasks on a multi-thread runtime, sub-tasks are spawned tasks
+    #[serde(default)]
+    tokio: bool,
+}
+
+const MODES: [&str; 5] = ["try", "guard", "fg", "wait", "disc"];
+
+fn plan_request(rng: &mut impl Rng, sc: &Scenario, p: i64, i: u64) -> ReqPlan {
+    let total: u32 = sc.modes.iter().sum();
+    let mut x = rng.random_range(0..total.max(1));
+    let mut mode = MODES[0];
+    for (k, w) in sc.modes.iter().enumerate() {
+        if x < *w {
+            mode = MODES[k];
+            break;
+        }
+        x -= w;
+    }
+    let enabling = mode == "fg" || mode == "wait";
+    let slot = mode == "wait" || mode == "disc";
+    ReqPlan {
+        p,
+        e: p as u64 * 1000 + i,
+        mode,
+        op: OPS[rng.random_range(0..OPS.len())],
+        by: rng.random_range(0..6),
+        d: [0, 1, 250, 1500, 1_000_000, 59_999_999][rng.random_range(0..6)],
+        sub_by: if slot { rng.random_range(0..4) } else { 0 },
+        sub_d: if enabling { [0, 0, 7, 2000][rng.random_range(0..4)] } else { 0 },
+        sub_delay_us: if sc.sub_delay_us > 0 { rng.random_range(0..=sc.sub_delay_us) } else { 0 },
+        owner_delay_us: if sc.owner_delay_us > 0 && rng.random::<bool>() { rng.random_range(0..=sc.owner_delay_us) } else { 0 },
+    }
+}
+
+/// returns false when the process can not go on (the attach handle drop did not return)
+fn run_scenario(sc: &Scenario) -> bool {
+    let ctrl = sched::controller();
+    trace::set_epoch(sc.id);
+    let total: u64 = sc.handlers.iter().map(|h| h.n).sum();
+    let cap = (total + 8) as usize;
+    trace::ev(json!({"ev": "Reset", "cap": cap as i64, "scenario": sc.id as i64}));
+    if sc.permille > 0 {
+        ctrl.begin_perturb(sc.seed, sc.permille, sc.max_us, false);
+    } else {
+        ctrl.free_run();
+    }
+    let (q, h) = build_queue(cap, sc.flush_us, sc.short, format!("svcw-{}", sc.id), OutLog::default());
+    let qc = q.clone();
+    let nh = sc.handlers.len();
+    let start = Arc::new(Barrier::new(nh + sc.flushers.len() + 1));
+    let handlers_done = Arc::new((Mutex::new(0usize), Condvar::new()));
+    let rt = if sc.tokio {
+        Some(tokio::runtime::Builder::new_multi_thread().worker_threads(3).enable_all().build().unwrap())
+    } else {
+        None
+    };
+    let mut threads = Vec::new();
+    for (pi, hs) in sc.handlers.iter().enumerate() {
+        let p = (pi + 1) as i64;
+        let mut rng = util::rng(sc.seed ^ (p as u64).wrapping_mul(0x9E37_79B9_7F4A_7C15));
+        let plans: Vec<ReqPlan> = (1..=hs.n).map(|i| plan_request(&mut rng, sc, p, i)).collect();
+        let start = start.clone();
+        let done = handlers_done.clone();
+        let pace = hs.pace_us;
+        if let Some(rt) = &rt {
+            let handle = rt.handle().clone();
+            let jh = rt.spawn(async move {
+                tokio::task::spawn_blocking(move || start.wait()).await.unwrap();
+                let mut subs = Vec::new();
+                for rp in &plans {
+                    let mut spawn_sub = |j: SubJob| {
+                        subs.push(handle.spawn(async move {
+                            let mut j = j;
+                            let d = j.delay_us;
+                            j.delay_us = 0;
+                            if d > 0 {
+                                tokio::time::sleep(Duration::from_micros(d)).await;
+                            }
+                            run_sub(j);
+                        }));
+                    };
+                    handle_request(rp, &mut spawn_sub);
+                    if pace > 0 {
+                        tokio::time::sleep(Duration::from_micros(pace)).await;
+                    } else {
+                        tokio::task::yield_now().await;
+                    }
+                }
+                for s in subs {
+                    let _ = s.await;
+                }
+                *done.0.lock().unwrap() += 1;
+                done.1.notify_all();
+            });
+            threads.push(std::thread::spawn(move || {
+                let _ = futures::executor::block_on(jh);
+            }));
+        } else {
+            threads.push(std::thread::spawn(move || {
+                // the handler's companion thread runs its sub-tasks
+                let (tx, rx) = mpsc::channel::<SubJob>();
+                let sub_thread = std::thread::spawn(move || {
+                    while let Ok(j) = rx.recv() {
+                        run_sub(j);
+                    }
+                });
+                start.wait();
+                for rp in &plans {
+                    handle_request(rp, &mut |j| {
+                        let _ = tx.send(j);
+                    });
+                    if pace > 0 {
+                        std::thread::sleep(Duration::from_micros(pace));
+                    }
+                }
+                drop(tx);
+                let _ = sub_thread.join();
+                *done.0.lock().unwrap() += 1;
+                done.1.notify_all();
+            }));
+        }
+    }
+    let fcount = Arc::new(std::sync::atomic::AtomicI64::new(0));
+    for fl in sc.flushers.iter().cloned() {
+        let q = qc.clone();
+        let start = start.clone();
+        let fcount = fcount.clone();
+        threads.push(std::thread::spawn(move || {
+            start.wait();
+            std::thread::sleep(Duration::from_micros(fl.delay_us));
+            for _ in 0..fl.count {
+                let f = fcount.fetch_add(1, Ordering::SeqCst) + 1;
+                do_flush(&q, f);
+                std::thread::sleep(Duration::from_micros(fl.gap_us));
+            }
+        }));
+    }
+    start.wait();
+    if sc.attach_delay_us > 0 {
+        std::thread::sleep(Duration::from_micros(sc.attach_delay_us));
+    }
+    trace::evi("AttachStart", &[]);
+    let handle = match util::catch(|| ServiceMetrics::attach((q, h))) {
+        Ok(hd) => {
+            trace::evi("AttachEnd", &[("ok", 1)]);
+            hd
+        }
+        Err(m) => {
+            trace::ev(json!({"ev": "AttachEnd", "ok": 0, "what": m}));
+            return false;
+        }
+    };
+    if sc.end == "race" {
+        std::thread::sleep(Duration::from_micros(sc.hold_us));
+    } else {
+        let g = handlers_done.0.lock().unwrap();
+        let _ = handlers_done.1.wait_timeout_while(g, Duration::from_secs(60), |d| *d < nh).unwrap();
+        // one more flush request right before the shutdown
+        if sc.seed % 3 == 0 {
+            do_flush(&qc, fcount.fetch_add(1, Ordering::SeqCst) + 1);
+        }
+    }
+    let ok = watched_detach(handle);
+    for t in threads {
+        let _ = t.join();
+    }
+    drop(rt);
+    drop(qc);
+    if ok {
+        trace::evi("Quiesce", &[]);
+    }
+    ctrl.free_run();
+    ok
+}
+
+fn cmd_run(a: &HashMap<String, String>) {
+    std::panic::set_hook(Box::new(|_| {}));
+    let scen = util::read_ndjson(util::arg_str(a, "scenarios", ""));
+    let mut out = std::io::BufWriter::new(std::fs::File::create(util::arg_str(a, "out", "")).unwrap());
+    let mut meta = std::io::BufWriter::new(std::fs::File::create(util::arg_str(a, "meta", "")).unwrap());
+    let mut line = 1usize;
+    for v in scen {
+        let sc: Scenario = serde_json::from_value(v.clone()).unwrap();
+        let t = Instant::now();
+        let ok = run_scenario(&sc);
+        let mut evs = trace::take();
+        annotate(&mut evs);
+        trace::append_ndjson(&mut out, &evs).unwrap();
+        let count = |name: &str| evs.iter().filter(|e| e["ev"] == name).count();
+        let modes: Vec<usize> = MODES.iter().map(|m| evs.iter().filter(|e| e["ev"] == "ReqStart" && e["mode"] == *m).count()).collect();
+        let m = json!({"id": sc.id, "first_line": line, "last_line": line + evs.len() - 1, "events": evs.len(),
+                       "requests": count("ReqStart"), "lines": count("Line"), "modes": modes,
+                       "try_err": evs.iter().filter(|e| e["ev"] == "TryEnd" && e["ok"] == 0).count(),
+                       "no_sink": evs.iter().filter(|e| e["ev"] == "SinkEnd" && e["ok"] == 0).count(),
+                       "never_written": evs.iter().filter(|e| (e["ev"] == "DropStart" || e["ev"] == "TryStart") && e["r"] == 0).count(),
+                       "wall_ms": t.elapsed().as_millis() as u64, "completed": ok, "scenario": v});
+        line += evs.len();
+        serde_json::to_writer(&mut meta, &m).unwrap();
+        meta.write_all(b"\n").unwrap();
+        if !ok {
+            // the global is still attached (or its lock poisoned): later scenarios cannot run here
+            break;
+        }
+    }
+    out.flush().unwrap();
+    meta.flush().unwrap();
+    std::process::exit(0);
+}
+
+// ------------------------------------------------------------------------------------------
+// R: sequential replay of ServiceReplay.tla behaviours
+// ------------------------------------------------------------------------------------------
+
+fn seq_one(b: &Value, seed: u64) -> (Value, bool) {
+    let id = b["id"].as_u64().unwrap_or(0);
+    let mut rng = util::rng(seed ^ id.wrapping_mul(0x9E37_79B9_7F4A_7C15));
+    trace::set_epoch(1_000_000 + id);
+    trace::ev(json!({"ev": "Reset", "cap": 64, "scenario": id as i64}));
+    let lines = OutLog::default();
+    let (q, h) = build_queue(64, [1u64, 200, 59_000_000][rng.random_range(0..3)], [0usize, 0, 5, 40][rng.random_range(0..4)],
+                             format!("svcs-{id}"), lines.clone());
+    let qc = q.clone();
+    let mut qh = Some((q, h));
+    let mut handle: Option<AttachHandle> = None;
+    let mut open: HashMap<u64, OpenReq> = HashMap::new();
+    let mut jobs: HashMap<u64, SubJob> = HashMap::new();
+    let mut mism: Vec<Value> = Vec::new();
+    let mut alive = true;
+    let steps = b["steps"].as_array().unwrap();
+    for (i, st) in steps.iter().enumerate() {
+        let op = st["op"].as_str().unwrap();
+        let e = st["e"].as_u64().unwrap_or(0);
+        let exp_ok = st["ok"].as_bool().unwrap_or(true);
+        let plan = |mode: &'static str, rng: &mut rand_chacha::ChaCha8Rng| ReqPlan {
+            p: 1,
+            e,
+            mode,
+            op: OPS[rng.random_range(0..OPS.len())],
+            by: st["by"].as_u64().unwrap_or(1),
+            d: st["d"].as_u64().unwrap_or(1) * [1u64, 250, 1_000_000][rng.random_range(0..3)],
+            sub_by: 0,
+            sub_d: 0,
+            sub_delay_us: 0,
+            owner_delay_us: 0,
+        };
+        match op {
+            "Attach" => {
+                trace::evi("AttachStart", &[]);
+                match util::catch(|| ServiceMetrics::attach(qh.take().unwrap())) {
+                    Ok(hd) => {
+                        trace::evi("AttachEnd", &[("ok", 1)]);
+                        handle = Some(hd);
+                    }
+                    Err(m) => {
+                        trace::ev(json!({"ev": "AttachEnd", "ok": 0, "what": m}));
+                        mism.push(json!({"step": i, "op": op, "what": "attach panicked"}));
+                        alive = false;
+                        break;
+                    }
+                }
+            }
+            "Detach" => {
+                if !watched_detach(handle.take().unwrap()) {
+                    mism.push(json!({"step": i, "op": op, "what": "the attach handle drop did not return"}));
+                    alive = false;
+                    break;
+                }
+            }
+            "Flush" => {
+                if !do_flush(&qc, st["f"].as_i64().unwrap()) {
+                    mism.push(json!({"step": i, "op": op, "what": "flush did not complete within 10 s"}));
+                }
+            }
+            "Try" => {
+                let rp = plan("try", &mut rng);
+                match util::catch(|| try_request(&rp)) {
+                    Ok(ok) if ok == exp_ok => {}
+                    Ok(ok) => mism.push(json!({"step": i, "op": op, "e": e, "what": "result of try_append", "expected_ok": exp_ok, "got_ok": ok})),
+                    Err(m) => mism.push(json!({"step": i, "op": op, "e": e, "what": format!("panic: {m}")})),
+                }
+            }
+            "Open" => {
+                let mode: &'static str = MODES.iter().copied().find(|m| *m == st["mode"].as_str().unwrap()).unwrap();
+                let rp = plan(mode, &mut rng);
+                match util::catch(|| open_request(&rp)) {
+                    Ok((o, j)) => {
+                        if o.is_some() != exp_ok {
+                            mism.push(json!({"step": i, "op": op, "e": e, "what": "result of try_sink", "expected_some": exp_ok, "got_some": o.is_some()}));
+                        }
+                        if let Some(o) = o {
+                            open.insert(e, o);
+                        }
+                        if let Some(j) = j {
+                            jobs.insert(e, j);
+                        }
+                    }
+                    Err(m) => mism.push(json!({"step": i, "op": op, "e": e, "what": format!("panic: {m}")})),
+                }
+            }
+            "ODrop" => {
+                if let Some(o) = open.remove(&e) {
+                    if let Err(m) = util::catch(|| drop_owner(o)) {
+                        mism.push(json!({"step": i, "op": op, "e": e, "what": format!("panic: {m}")}));
+                    }
+                }
+            }
+            "GDrop" => {
+                if let Some(mut j) = jobs.remove(&e) {
+                    j.by = st["by"].as_u64().unwrap_or(0);
+                    j.d = st["d"].as_u64().unwrap_or(0) * [1u64, 7, 2000][rng.random_range(0..3)];
+                    // half of the time from another thread
+                    if rng.random::<bool>() {
+                        let _ = std::thread::spawn(move || run_sub(j)).join();
+                    } else {
+                        run_sub(j);
+                    }
+                }
+            }
+            other => {
+                mism.push(json!({"step": i, "what": format!("unknown op {other}")}));
+            }
+        }
+        // after a completed flush / handle drop the output is exactly what TLC computed
+        if let Some(exp) = st.get("out").and_then(|o| o.as_array()) {
+            let got: Vec<Value> = lines.0.lock().unwrap().clone();
+            let proj = |l: &Value| -> Value {
+                if l["ev"] == "Line" { json!([l["e"], l["c"], l["h"], l["sub"], l["ts"]]) } else { json!(["bad", l["why"]]) }
+            };
+            let got_p: Vec<Value> = got.iter().map(proj).collect();
+            let exp_p: Vec<Value> = exp.iter().map(|l| json!([l["e"], l["c"], l["h"], l["sub"], l["ts"]])).collect();
+            if got_p != exp_p {
+                mism.push(json!({"step": i, "op": op, "what": "output [request, Items, Hits, SubItems, timestamp] after the operation completed",
+                                 "expected": exp_p, "got": got_p}));
+            }
+        }
+        if mism.len() > 4 {
+            break;
+        }
+    }
+    // clean up: nothing may stay attached or open
+    for (_, j) in jobs.drain() {
+        run_sub(j);
+    }
+    for (_, o) in open.drain() {
+        let _ = util::catch(|| drop_owner(o));
+    }
+    if let Some(hd) = handle.take() {
+        if alive && !watched_detach(hd) {
+            alive = false;
+        }
+    }
+    drop(qh);
+    drop(qc);
+    if alive {
+        trace::evi("Quiesce", &[]);
+    }
+    (json!({"id": id, "mismatches": mism, "steps": steps.len()}), alive)
+}
+
+fn cmd_seq(a: &HashMap<String, String>) {
+    std::panic::set_hook(Box::new(|_| {}));
+    sched::controller().free_run();
+    let beh = util::read_ndjson(util::arg_str(a, "behaviours", ""));
+    let seed = util::arg_u64(a, "seed", 1);
+    let mut out = std::io::BufWriter::new(std::fs::File::create(util::arg_str(a, "out", "")).unwrap());
+    let mut meta = std::io::BufWriter::new(std::fs::File::create(util::arg_str(a, "meta", "")).unwrap());
+    let mut res = std::io::BufWriter::new(std::fs::File::create(util::arg_str(a, "results", "")).unwrap());
+    let mut line = 1usize;
+    for b in &beh {
+        let (r, alive) = seq_one(b, seed);
+        let mut evs = trace::take();
+        annotate(&mut evs);
+        trace::append_ndjson(&mut out, &evs).unwrap();
+        let m = json!({"id": b["id"], "first_line": line, "last_line": line + evs.len() - 1, "events": evs.len(), "scenario": b});
+        line += evs.len();
+        serde_json::to_writer(&mut meta, &m).unwrap();
+        meta.write_all(b"\n").unwrap();
+        serde_json::to_writer(&mut res, &r).unwrap();
+        res.write_all(b"\n").unwrap();
+        if !alive {
+            break;
+        }
+    }
+    out.flush().unwrap();
+    meta.flush().unwrap();
+    res.flush().unwrap();
+    std::process::exit(0);
+}
+
+fn main() {
+    let (cmd, a) = util::args();
+    match cmd.as_str() {
+        "run" => cmd_run(&a),
+        "seq" => cmd_seq(&a),
+        _ => {
+            eprintln!("usage: svc run|seq ...");
+            std::process::exit(2);
+        }
+    }
 }
